@@ -96,7 +96,7 @@ type (
 )
 
 // Ops lists the operations a trial can place inside the mark phase.
-var Ops = []string{"move_add", "move_remove", "swap_remove", "batch_move", "grow", "take_remove_last", "take_remove_comp", "take_remove_swap", "copy_entity", "shrink", "new_into_recycled", "exchange"}
+var Ops = []string{"move_add", "move_remove", "swap_remove", "batch_move", "grow", "take_remove_last", "take_remove_comp", "take_remove_swap", "copy_entity", "shrink", "new_into_recycled", "exchange", "take_reset", "take_remove_batch", "take_remove_comp_batch"}
 
 // Trial describes one trial (all fields derive from the seed).
 type Trial struct {
@@ -401,6 +401,22 @@ func act[T any](sp spec[T], h *hidden, t *Trial) (*Obj, uint64) {
 		m.Remove(p.e)
 		p.alive = false
 		return o, p.v
+	case "take_reset", "take_remove_batch", "take_remove_comp_batch":
+		// whole tables are cleared at once (<= 64 rows and more take different paths)
+		o := sp.get(m.Get(p.e))
+		switch t.Op {
+		case "take_reset":
+			w.Reset()
+		case "take_remove_batch":
+			w.RemoveEntities(filter.Batch(), nil)
+		default:
+			other2.AddBatch(filter.Batch(), &Other2{X: 5}) // so that the entities keep a component
+			m.RemoveBatch(filter.Batch(), nil)
+		}
+		for i := range h.ents {
+			h.ents[i].alive = false
+		}
+		return o, p.v
 	case "copy_entity":
 		// the copy shares the pointee
 		c := w.CopyEntity(p.e)
@@ -483,7 +499,7 @@ func runTrial[T any](sp spec[T], t *Trial) Outcome {
 		out.Sig = "C11/gc.window/" + t.Kind + "/" + t.Op
 		return out
 	}
-	takes := t.Op == "take_remove_last" || t.Op == "take_remove_comp" || t.Op == "take_remove_swap"
+	takes := len(t.Op) > 5 && t.Op[:5] == "take_"
 	// First the weak pointers only (no pointee is dereferenced, no further collection runs):
 	// an object that was freed in this cycle although it is still referenced must not be
 	// touched again, the runtime would abort the process in the next cycle.
